@@ -17,6 +17,9 @@ pub struct Case {
     pub key: Option<usize>,
     pub value: Option<X>,
     pub value2: Option<X>,
+    /// weather passed to BOTH executions (None = absent); the kinds "weather"/"weather_default" override it for the second
+    #[serde(default)]
+    pub base_weather: Option<(X, X)>,
 }
 
 fn same(a: &Result<PrayerTime, ()>, b: &Result<PrayerTime, ()>) -> bool {
@@ -30,12 +33,13 @@ pub fn check(_ctx: &Ctx, st: &mut Stats, c: &Case) {
     let p = c.p.build();
     let date = s2d(&c.date);
     let l = c.site.loc();
-    let Ok(base) = call(st, &p, l, date, None) else {
+    let bw = c.base_weather.map(|(a, b)| weather(a.0, b.0));
+    let Ok(base) = call(st, &p, l, date, bw) else {
         st.count("panicked_cannot_decide(see C07)");
         return;
     };
     let mut p2 = p.clone();
-    let mut w2: Option<Weather> = None;
+    let mut w2: Option<Weather> = bw;
     let v = c.value.map(|x| x.0).unwrap_or(0.0);
     match c.kind.as_str() {
         "minutes" => {
@@ -77,8 +81,17 @@ pub fn check(_ctx: &Ctx, st: &mut Stats, c: &Case) {
                 continue;
             }
             if skip_flagged && (flagged(&base[&pr]) || flagged(&res[&pr])) {
-                st.count("excluded.flagged_entry_is_a_function_of_both_angles_by_definition");
-                continue;
+                // A substituted (flagged) entry may legitimately depend on the other angle in two ways only:
+                // (i) nearest-good-day: the good day is defined by BOTH twilights; (ii) the change switched the
+                // policy on or off for that day (flag status differs between the runs). A value that is
+                // substituted in both runs by any other policy is a function of its own angle at most.
+                let both = flagged(&base[&pr]) && flagged(&res[&pr]);
+                let gate_changed = [Prayer::Fajr, Prayer::Isha].iter().any(|q| flagged(&base[q]) != flagged(&res[q]));
+                if c.p.policy.starts_with("NearestGoodDay") || !both || gate_changed {
+                    st.count("excluded.flagged_entry_is_a_function_of_both_angles_by_definition");
+                    continue;
+                }
+                st.count("checks.substituted_entry_independent_of_other_angle");
             }
             if !same(&base[&pr], &res[&pr]) {
                 st.violate(clause, c, json!({"changed_prayer": format!("{pr:?}"), "results": both()}));
@@ -298,6 +311,12 @@ fn gen_case(r: &mut Rng) -> Case {
         }
         _ => {}
     }
+    let base_weather = if !matches!(kind, "weather" | "weather_default") && r.chance(0.4) {
+        let w = gen::any_weather(r);
+        Some((X(f64::from(w.pressure)), X(f64::from(w.temperature))))
+    } else {
+        None
+    };
     Case {
         site,
         date,
@@ -306,6 +325,7 @@ fn gen_case(r: &mut Rng) -> Case {
         key,
         value,
         value2,
+        base_weather,
     }
 }
 
